@@ -7,6 +7,7 @@ import Pdlv.Inherit
 import Pdlv.Seg
 import Pdlv.Analyzer
 import Pdlv.ToJson
+import Pdlv.Syntax
 
 namespace Pdlv.Driver
 open Lean (Json)
@@ -220,6 +221,21 @@ def handle (st : State) (req : Json) : Except String (State × Json) := do
       pure (st, Json.mkObj [("status", "err"), ("diagnostics", Json.arr (ds.map fun d =>
         Json.mkObj [("code", Json.str s!"E{d.code}"), ("labels", Json.arr (d.labels.map rangeJ).toArray)]).toArray)])
     | .panic p => pure (st, Json.mkObj [("status", "panic"), ("site", Json.str (reprStr p))])
+  | "parse" =>
+    let text ← J.str req "text"
+    match Syntax.parse text.toUTF8.data with
+    | .ok p =>
+      pure (st, Json.mkObj [("status", "ok"), ("declarations", TJ.decls p.file),
+        ("endianness", Json.mkObj [("value", Json.str (match p.file.endian with | .little => "little_endian" | .big => "big_endian")),
+                                   ("loc", TJ.range p.endianLoc)]),
+        ("comments", Json.arr (p.comments.map fun c => Json.mkObj [("loc", TJ.range c.loc), ("text", Json.str c.text)]).toArray)])
+    | .syntaxError => pure (st, Json.mkObj [("status", "parse_err"), ("kind", "syntax")])
+    | .convError m => pure (st, Json.mkObj [("status", "parse_err"), ("kind", "conversion"), ("message", Json.str m)])
+  | "srcloc" =>
+    let off ← J.nat req "offset"
+    let ls ← natList req "line_starts"
+    let l := Syntax.srcLocNew off ls
+    pure (st, Json.mkObj [("status", "ok"), ("offset", Json.num l.offset), ("line", Json.num l.line), ("column", Json.num l.column)])
   | "types" =>
     -- which declarations the Rust model supports
     let f ← getFile st
